@@ -131,6 +131,37 @@ def _u4(t0: int, dt: int):
     return True
 
 
+# --------------------------------------------------------------------------------------------- U1b nested values
+def _nested(order: int, leaf: int):
+    """one value, written in one of 4 key orders (nested mappings, a mapping inside a list)."""
+    inner = {"p": leaf, "q": 2} if order & 1 == 0 else {"q": 2, "p": leaf}
+    if order & 2 == 0:
+        return {"x": 1, "y": inner, "z": [inner, 3]}
+    return {"z": [inner, 3], "y": inner, "x": 1}
+
+
+def _u1b(o1: int, o2: int, leaf1: int, leaf2: int):
+    """digests and deltas are functions of CONTENT: the same nested value written in another key order has the same
+    digest and is not an update; a different leaf is."""
+    from semantiva.trace._utils import canonical_json_bytes, serialize, sha256_bytes
+    from semantiva.trace.delta_collector import DeltaCollector
+    from vt.engine import assume
+
+    assume(0 <= o1 < 4 and 0 <= o2 < 4 and 0 <= leaf1 <= 1 and 0 <= leaf2 <= 1)
+    c1, c2 = next(i for i in range(4) if o1 == i), next(i for i in range(4) if o2 == i)
+    l1, l2 = (1 if leaf1 == 1 else 0), (1 if leaf2 == 1 else 0)
+    a, b = _nested(c1, l1), _nested(c2, l2)
+    same = l1 == l2
+    for fn, what in ((lambda v: sha256_bytes(canonical_json_bytes({"k": v})), "context digest"), (lambda v: sha256_bytes(serialize(v)), "value digest")):
+        if (fn(a) == fn(b)) != same:
+            return Fail("C07.U1b:digest-vs-content:%s" % what.split()[0], "%s of %r and %r are %s although the contents are %s" % (what, a, b, "equal" if fn(a) == fn(b) else "different", "equal" if same else "different"))
+    out = DeltaCollector(enable_hash=True, enable_repr=False).compute(pre_ctx={"k": a}, post_ctx={"k": b}, required_keys=[])
+    upd = sorted(out["updated_keys"] if isinstance(out, dict) else out.updated_keys)
+    if upd != ([] if same else ["k"]):
+        return Fail("C07.U1b:updated-keys-vs-content", "updated_keys %r for pre %r post %r" % (upd, a, b))
+    return True
+
+
 # --------------------------------------------------------------------------------------------- U5
 def _mk_scaled(default: int):
     """A class named the same (module and qualified name) on every call, with another default each time -- what a plugin
@@ -154,13 +185,14 @@ def _u5(x: int, i: int, j: int, placed: int):
     from vt.memtrace import MemTrace
 
     DEF = (2, 5, -1)
-    assume(0 <= i < 3 and 0 <= j < 3 and 0 <= placed <= 2)
+    assume(0 <= i < 3 and 0 <= j < 3 and 0 <= placed <= 3)
     d1, d2 = DEF[next(k for k in range(3) if i == k)], DEF[next(k for k in range(3) if j == k)]
     A, B = _mk_scaled(d1), _mk_scaled(d2)
     lib.run_pipeline([{"processor": A, "parameters": {}}], lib.IntData(1), {}, trace=MemTrace())
     cfg = {"factor": 40} if placed == 1 else {}
-    ctx = {"factor": 70} if placed == 2 else {}
-    exp_val, exp_src = (40, "node") if placed == 1 else ((70, "context") if placed == 2 else (d2, "default"))
+    # placed == 3: the context supplies a value that happens to equal the default -- the channel is still the context
+    ctx = {"factor": 70} if placed == 2 else ({"factor": d2} if placed == 3 else {})
+    exp_val, exp_src = (40, "node") if placed == 1 else ((70, "context") if placed == 2 else ((d2, "context") if placed == 3 else (d2, "default")))
     tr = MemTrace()
     lib.reset_log()
     d, _c = lib.run_pipeline([{"processor": B, "parameters": cfg}], lib.IntData(x), ctx, trace=tr)
@@ -706,7 +738,8 @@ def obligations(tier: str) -> List[Ob]:
         Ob("C07.T", lambda _p: _t, lambda _p, a: R(_t_body)(_p, {"fi": a["fi"], "bi": a["bi"], "failing": a["failing"]}), budget=300,
            bound="controlled wall clock: first reading = one of 4 base seconds (ordinary, :59, end of Feb 29, end of year) + one of 9 sub-second parts around .0005 / .9995 / 1 (symbolic indices), later readings +0.11 ms each; succeeding or failing 2-node run; real JSONL driver",
            targets=["semantiva/execution/orchestrator/orchestrator.py:SemantivaOrchestrator._iso_now", "semantiva/execution/orchestrator/orchestrator.py:SemantivaOrchestrator._start_timing", "semantiva/execution/orchestrator/orchestrator.py:SemantivaOrchestrator._end_timing", "semantiva/trace/drivers/jsonl.py:JsonlTraceDriver._now_timestamp"]),
-        Ob("C07.U5", lambda _p: _u5, R(_u5), budget=300, per_path=60, bound="two classes with one qualified name and defaults picked by symbolic indices from {2, 5, -1}, run one after the other (traced); the parameter of the second placed in default / node / context (selector); payload symbolic", targets=["semantiva/execution/orchestrator/orchestrator.py:SemantivaOrchestrator._resolve_params_with_sources"], stubs=list(STUBS)),
+        Ob("C07.U1b", lambda _p: _u1b, R(_u1b), budget=120, bound="one nested value (mapping in mapping, mapping in list) written in 4 key orders x 2 leaf values on each side (symbolic selectors)", targets=["semantiva/trace/_utils.py:canonical_json_bytes", "semantiva/trace/_utils.py:serialize", "semantiva/trace/delta_collector.py:DeltaCollector.compute"]),
+        Ob("C07.U5", lambda _p: _u5, R(_u5), budget=300, per_path=60, bound="two classes with one qualified name and defaults picked by symbolic indices from {2, 5, -1}, run one after the other (traced); the parameter of the second placed in default / node / context / context-with-the-default's-value (selector); payload symbolic", targets=["semantiva/execution/orchestrator/orchestrator.py:SemantivaOrchestrator._resolve_params_with_sources"], stubs=list(STUBS)),
         Ob("C07.U4", lambda _p: _u4, R(_u4), budget=120, bound="clock start and non-negative advance symbolic (whole seconds)", targets=["semantiva/execution/orchestrator/orchestrator.py:SemantivaOrchestrator._end_timing"]),
         Ob("C07.P1", _make_p1, _replay_p1, params=templates(tier), budget=400 if not big else 900, per_path=60,
            bound="per shape template (as C01: length-1, curated, all length-2; thorough +length-3 and a seeded draw), all values and placements symbolic; every SER's parameters/sources/ref/delta/checks vs the recorded run",
